@@ -434,13 +434,15 @@ def kind_of(e) -> str:
         if isinstance(e, (WrappedDisk, cb.OneCoreDisk)):
             return "face0"
         if isinstance(e, cb.Oval):
-            return "other"
+            return "oval"
         if isinstance(e, DiskBase):
             return "firstpt"
         if type(e) in (cb.MappedSketch, Annulus):
             return "sketchavg"
         if isinstance(e, SplineRound) and _defining_class(e, "center") == "SplineRound" and _defining_class(e, "parts") == "Sketch":
             return "facept3"
+        if isinstance(e, SplineRound) and _defining_class(e, "center") == "QuarterSplineRing" and _defining_class(e, "parts") == "QuarterSplineRing":
+            return "ringc"
         return "other"
     if isinstance(e, EighthSphere):
         return "sphere"
